@@ -190,29 +190,30 @@ Print Assumptions C04_unguarded_race.
 
 (* triggers, refresh jobs and completions in any order and number: when a completed join is not re-armed by a
    late trigger, it starts at most once ... *)
-Theorem C04_join_life_once : forall k evs, starts (life_run false k evs) <= 1.
+Theorem C04_join_life_once : forall ru k evs, starts (life_run false ru k evs) <= 1.
 Proof. exact life_once. Qed.
 Print Assumptions C04_join_life_once.
 
 (* ... and (re-arming or not) never before k inbound tasks routed to it *)
-Theorem C04_join_life_start_sound : forall rearm k evs,
-  0 < starts (life_run rearm k evs) -> k <= routed_n (life_run rearm k evs).
+Theorem C04_join_life_start_sound : forall rearm ru k evs,
+  0 < starts (life_run rearm ru k evs) -> k <= routed_n (life_run rearm ru k evs).
 Proof. exact life_start_sound. Qed.
 Print Assumptions C04_join_life_start_sound.
 
 (* with re-arming, a partial join (1 of 2) starts twice when the second branch arrives after it completed *)
-Theorem C04_partial_join_rerun_witness :
-  starts (life_run true 1 [Trigger; Refresh; Complete; Trigger; Refresh]) = 2.
+Theorem C04_partial_join_rerun_witness : forall ru,
+  starts (life_run true ru 1 [Trigger; Refresh; Complete; Trigger; Refresh]) = 2.
 Proof. exact life_twice_with_rearm. Qed.
 Print Assumptions C04_partial_join_rerun_witness.
 
-(* For the source as it is (Gen/Locks.v: what Task.defer does to a completed join execution in a definition
-   where the join is not on a cycle): "at most one start for all k and all event sequences" holds exactly when
-   the extracted flag is false.  While it is true the property is refuted by the witness above, and the
-   implementation oracle shows the failing run (signature partial-join-rerun-by-late-branch). *)
+(* For the source as it is (Gen/Locks.v: what Task.defer does to a completed join execution that has run, in a
+   definition where the join is not on a cycle; and to one that failed without starting): "at most one start for
+   all k and all event sequences" holds exactly when the extracted flag is false.  Were it true, the property would
+   be refuted by the witness above and the implementation oracle would show the failing run (signature
+   partial-join-rerun-by-late-branch; that was the case before fix 1c5aca86 of /repo). *)
 Theorem C04_join_once_iff_completed_join_not_rearmed :
-  (forall k evs, starts (life_run defer_rearm_acyclic k evs) <= 1) <-> defer_rearm_acyclic = false.
-Proof. exact (life_once_iff defer_rearm_acyclic). Qed.
+  (forall k evs, starts (life_run defer_rearm_acyclic defer_rearm_unstarted k evs) <= 1) <-> defer_rearm_acyclic = false.
+Proof. exact (life_once_iff defer_rearm_acyclic defer_rearm_unstarted). Qed.
 Print Assumptions C04_join_once_iff_completed_join_not_rearmed.
 
 (* ---------------------------------------------------------------- non-vacuity *)
